@@ -202,6 +202,7 @@ func genOutCase(t *rapid.T, forceSigned bool) OutCase {
 			c.SP.RAC = &h.RAC{Comparison: "exact", Contexts: []string{"urn:a", v}}
 		}
 	}
+	c.SP.LateSignOptions = rapid.IntRange(0, 2).Draw(t, "lateSignOptions") == 0
 	c.Signed = hasKey && (forceSigned || rapid.Bool().Draw(t, "signed"))
 	c.Direct = c.Signed && c.Kind != "authn-str" && rapid.IntRange(0, 3).Draw(t, "directSign") == 0
 	c.Resign = c.Direct && rapid.IntRange(0, 2).Draw(t, "resign") == 0
@@ -773,6 +774,12 @@ func TestC13_Grid(t *testing.T) {
 					}
 					sp.SignRequests = true
 					cases = append(cases, OutCase{SP: sp, Kind: kind, Signed: true, NameID: "user@example.com", Session: "_s1", Status: saml2.StatusCodeSuccess, ReqID: "_r1"})
+					if wi == 0 {
+						// non-default algorithm and canonicaliser, assigned after the key setters ran
+						late := sp
+						late.SignAlg, late.SignC14N, late.LateSignOptions = dsig.RSASHA512SignatureMethod, h.C14Ns[0], true
+						cases = append(cases, OutCase{SP: late, Kind: kind, Signed: true, NameID: "user@example.com", Session: "_s1", Status: saml2.StatusCodeSuccess, ReqID: "_r1"})
+					}
 				}
 			}
 		}
